@@ -4,6 +4,7 @@ from .common import Table, client_dispatch_poll, reachable_local_fns, norm_path
 from .deadlines import arming_rules, expiry_rules
 from .C01 import value_shapes
 
+EXTRA_CONFIGS = ('default', 'tokio1', 'serde1', 'serde-transport')   # feature configurations re-analysed in the thorough tier
 META = {
     'level': 'other',
     'technique': 'static provenance of the timer duration and who-may-construct/who-may-complete rules over MIR',
